@@ -41,7 +41,8 @@ def generate_for(prop, rng):
     big = rng.random() < 0.08
     n = rng.randint(1 if prop == "C09" else 2, 14) if not big else rng.randint(15, 30)
     d = rng.randint(1, 4) if not big else rng.randint(3, 7)
-    kind = weighted(rng, [("continuous", 4), ("integers", 3), ("duplicates", 1.5), ("constant_col", 1)])
+    kind = weighted(rng, [("continuous", 4), ("integers", 3), ("duplicates", 1.5), ("constant_col", 1),
+                          ("offset", 0.8), ("tiny", 0.6), ("near_ties", 0.8)])
     msl = weighted(rng, [(1, 5), (2, 2), (3, 1)])
     mss = max(2, 2 * msl + weighted(rng, [(0, 3), (1, 1), (2, 1), (4, 1)]))
     p = dict(max_clusters=rng.randint(1, 6), max_depth=weighted(rng, [(None, 3), (1, 1), (2, 1), (3, 1)]),
@@ -97,6 +98,16 @@ def make_kauri_data(cfg, which=0):
             X[i] = X[j]
     if kind == "constant_col":
         X[:, rs.randint(d)] = 1.0
+    if kind == "offset":
+        X = X + 10.0 ** rs.randint(3, 8)                 # un-centred measurements, timestamps
+    if kind == "tiny":
+        X = X * 10.0 ** (-rs.randint(6, 11))
+    if kind == "near_ties" and n >= 2:
+        # distinct values that differ only in the last bits (relative 1e-7 .. 1e-15)
+        for _ in range(max(1, n // 3)):
+            i, j = rs.randint(n), rs.randint(n)
+            if i != j:
+                X[i] = X[j] * (1.0 + 10.0 ** (-rs.randint(7, 16))) + (1e-300 if rs.rand() < 0.2 else 0.0)
     A = None
     if cfg["params"]["kernel"] == "precomputed":
         from sklearn.metrics import pairwise_kernels
@@ -428,6 +439,9 @@ def final_checks(res, oracle, model, cfg, X, A, kernel_matrix, query_rs):
         Q[r, f] = th
     if used:
         Q[6:9] = X[query_rs.randint(n, size=3)]
+        for r, (f, th) in enumerate(used[:3]):
+            Q[9 + r] = X[query_rs.randint(n)]
+            Q[9 + r, f] = np.nextafter(th, np.inf if r % 2 == 0 else -np.inf)    # one ulp beside the threshold
     got = model.predict(Q)
     want = np.array([tree_route(t, q)[0] for q in Q])
     if not np.array_equal(got, want):
@@ -458,12 +472,30 @@ def final_checks(res, oracle, model, cfg, X, A, kernel_matrix, query_rs):
         if abs(sc - tot) > tol * 10:
             V("C08:telescoping" + (":with_double_star" if oracle.saw_double_star else ""),
               {"score": float(sc), "root_plus_gains": tot, "kinds": oracle.kinds_chosen})
-    # growth stops only on gain <= 0 or a structural limit
+    # growth stops only when no admissible split has positive gain or a structural limit is hit
     if oracle.last_gain is not None and oracle.last_gain > 0 and nl < max_leaves:
         sizes = {int(l): int(c) for l, c in zip(lv, cnt)}
         explorable = [l for l in sizes if sizes[l] >= p["min_samples_split"] and oracle.depth.get(l, 0) < max_depth]
-        if explorable:
-            V("C08:premature_stop", {"leaves": nl, "max_leaves": max_leaves, "explorable": explorable, "last_gain": oracle.last_gain})
+        d_all = X.shape[1]
+        if explorable and (p["max_features"] is None or p["max_features"] >= d_all):
+            # reconstruct the final state and ask the brute force whether anything admissible with positive gain is left
+            L = int(max(model.leaves_)) + 1
+            Zf = np.zeros((L, n), dtype=np.int64)
+            Zf[model.leaves_, np.arange(n)] = 1
+            Kc = int(p["max_clusters"])
+            Yf = np.zeros((Kc, L), dtype=np.int64)
+            for l in range(L):
+                members = np.where(model.leaves_ == l)[0]
+                if len(members):
+                    Yf[int(model.labels_[members[0]]), l] = 1
+            n_clusters = len(np.unique(model.labels_))
+            _, alts = enumerate_fast(kernel_matrix, X, np.array(explorable), Yf, Zf, n_clusters, Kc, int(p["min_samples_leaf"]),
+                                     np.arange(d_all))
+            tol2 = 1e-9 * max(1.0, abs(ref), float(np.abs(kernel_matrix).sum()))
+            best = max(alts, key=lambda a: a["gain"]) if alts else None
+            if best is not None and best["gain"] > tol2 and best["kind"] not in ("double_star", "reallocation"):
+                V("C08:premature_stop", {"leaves": nl, "max_leaves": max_leaves, "explorable": explorable, "last_gain": oracle.last_gain,
+                                         "remaining": best})
     res.probe("leaves_total", nl)
     if nl > 1:
         res.probe("trees_with_split")
